@@ -372,3 +372,55 @@ func (s *vFlakySink) processEntities(runner *Runner, entities []*server.Entity) 
 	}
 	return s.Sink.processEntities(runner, entities)
 }
+
+// VerifC08LivingJob: ONE pipeline object — the source and sink objects a
+// scheduled job keeps for its whole life — runs several times while things
+// change under it: source writes, and the sink dataset deleted, re-created
+// under the same name and the job reset to the beginning (what an operator does
+// to rebuild a sink). After every run that ends successfully the sink's latest
+// view equals the source's; the dataset now registered under the sink's name is
+// the one that received the data.
+func VerifC08LivingJob(h *verifh.H) {
+	hub := server.VerifNewHub(h)
+	src, err := hub.Dsm.CreateDataset("src", nil)
+	h.Assert(err == nil, "create src")
+	_, err = hub.Dsm.CreateDataset("dst", nil)
+	h.Assert(err == nil, "create dst")
+	full := h.Choice("fullsync", 2) == 1
+	ds := &source.DatasetSource{DatasetName: "src", Store: hub.Store, DatasetManager: hub.Dsm}
+	sink := &datasetSink{DatasetName: "dst", Store: hub.Store, DatasetManager: hub.Dsm}
+	spec := PipelineSpec{source: ds, sink: sink, batchSize: 1 + h.Choice("batchSize", 2)}
+	var pl Pipeline = &IncrementalPipeline{spec}
+	if full {
+		pl = &FullSyncPipeline{spec}
+	}
+	j := &job{id: "copy", title: "copy", pipeline: pl, runner: vRunner(hub, 1, 1)}
+	run := func(when string) {
+		_, err := pl.sync(j, context.Background())
+		h.Assert(err == nil, "run succeeds :: "+when)
+		h.Assert(vJoinS(vListing(hub, "dst")) == vJoinS(vListing(hub, "src")), "after a successful run the sink's latest view equals the source's :: "+when+" dst="+vJoinS(vListing(hub, "dst"))+" src="+vJoinS(vListing(hub, "src")))
+	}
+	e := server.NewEntity("ns0:e1", 0)
+	e.Properties["ns0:tag"] = "w0"
+	h.Assert(src.StoreEntities([]*server.Entity{e}) == nil, "source write")
+	run("first run")
+	nops := h.Param("ops", 2)
+	for k := 0; k < nops; k++ {
+		switch h.Choice("op", 3) {
+		case 0: // source write
+			e := server.NewEntity([]string{"ns0:e1", "ns0:e2"}[h.Choice("id", 2)], 0)
+			e.Properties["ns0:tag"] = "k" + itoa(k)
+			e.IsDeleted = h.Choice("del", 2) == 1
+			h.Assert(src.StoreEntities([]*server.Entity{e}) == nil, "source write")
+		case 1: // the sink dataset is rebuilt: deleted, re-created, the job reset to the beginning
+			h.Assert(hub.Dsm.DeleteDataset("dst") == nil, "delete sink")
+			_, err := hub.Dsm.CreateDataset("dst", nil)
+			h.Assert(err == nil, "re-create sink")
+			h.Assert(hub.Store.DeleteObject(server.JobDataIndex, "copy") == nil, "job reset")
+		case 2: // the job runs
+			run("run after op " + itoa(k))
+		}
+	}
+	run("last run")
+	h.Observe("dst", vJoinS(vListing(hub, "dst")))
+}
